@@ -398,8 +398,8 @@ def install_units_int_shim():
 class MapOrderView:
     """
     an immutables.Map whose bulk iteration (values / keys / items / iter) follows a solver-chosen order of its keys;
-    lookups and persistent updates delegate to the real Map (an update returns a real Map: by then the order that
-    matters -- the one the caller iterated at the start -- has been consumed).
+    lookups and persistent updates delegate to the real Map; replacing the value of an existing key keeps the view (and
+    its order), any other update returns a real Map.
     """
 
     def __init__(self, m, order):
@@ -431,7 +431,8 @@ class MapOrderView:
         return self.m.get(k, default)
 
     def set(self, k, v):
-        return self.m.set(k, v)
+        # (a HAMT's iteration order is a function of the key hashes: replacing the value of an existing key keeps it)
+        return MapOrderView(self.m.set(k, v), self.order) if k in self.m else self.m.set(k, v)
 
     def delete(self, k):
         return self.m.delete(k)
